@@ -1465,7 +1465,20 @@ def incoq(ctx, seeds):
                            cdw([rng.randrange(4) for _ in range(3)]), cdw([0, 1, 2]), cdw([0, 1]),
                            [list(range(len(sev))), list(range(len(sev))), sev + [T]], [[0], [0], [0, T]],
                            [[0, 0, 1, [rng.randrange(5) for _ in range(T)]]] if rng.random() < 0.6 else []])
-        cases.append([19, [wparts, [[0, 0]], [int(x) for x in gen['keep']]]])
+        cases.append([19, [wparts, [[0, 0, int(rng.random() < 0.3)]], [int(x) for x in gen['keep']]]])
+        # identity of subarrays / spectral windows (wire_194) on small random tables with repeats
+        cps = [[a, p, b, q] for a in (0, 1) for p in (0, 1) for b in (0, 1) for q in (0, 1)]
+        subs = [[[40, 41][:rng.randint(1, 2)], rng.sample(cps, 3)] for _ in range(3)]
+        subs += [rng.choice(subs), [subs[0][0], subs[0][1][::-1]]]
+        spws = [[rng.randrange(2), rng.randrange(2), 4, 1, rng.randrange(2), rng.randrange(2), 7] for _ in range(5)]
+        cases.append([194, [subs, spws]])
+        # select(subarray=, spw=) on a two-subarray concatenation (wire_193), a short history
+        if len(wparts) >= 2:
+            mp = [list(w) for w in wparts]
+            mp[0][3] = [[1], [0], [0, gen['parts'][0]['T']]]
+            menv = [[[[1], [1]], [[2], [2]], [[3], [1]], [[4], [2]]], 2, 2, [[8, 12], [8, 12]], subs[:2]]
+            calls = [[[[ord(ch) for ch in 'pol'], [9, [[0, 0]]]]], [[[ord(ch) for ch in 'scans'], [2, [[1, 1]]]]]]
+            cases.append([193, [mp, menv, rng.randrange(2), 0, calls]])
     with core.BuildLock():
         tg = ' '.join(x[:-2] + '.vo' for x in core.coq_sources() if x.startswith(('Base/', 'Gen/', 'Model/')))
         core.sh('timeout 1500 make -j4 %s' % tg, cwd=core.COQ, timeout=1600)
